@@ -302,8 +302,28 @@ func Register() {
 		e.P("def apChecked : Bool := %s", tl.LeanBool(has(c5S, "if off+2 > len(payload)") && has(c5S, "if off+int(nalSize) > len(payload)")))
 		e.P("def aacChecked : Bool := %s", tl.LeanBool(has(cA, "if len(payload) < 2") && has(cA, "if framesPayloadOffset > len(payload)") && has(cA, "if int(frameSize) > len(framesPayload)")))
 		e.P("def srChecked : Bool := %s", tl.LeanBool(has(cSR, "if len(data) >= 20 && data[1] == 200")))
-		e.P("def psUntilReady264 : Bool := %s", tl.LeanBool(has(cW, "if len(h264dp.meta.Sps) == 0 || !h264dp.metaReady") && has(cW, "if len(h264dp.meta.Pps) == 0 || !h264dp.metaReady")))
-		e.P("def psUntilReady265 : Bool := %s", tl.LeanBool(has(c5W, "if len(h265dp.meta.Vps) == 0 || !h265dp.metaReady") && has(c5W, "if len(h265dp.meta.Sps) == 0 || !h265dp.metaReady") && has(c5W, "if len(h265dp.meta.Pps) == 0 || !h265dp.metaReady")))
+		unv := func(f *ast.File, recv, dp string) bool {
+			fd := tl.FuncDecl(f, recv, "unvalidated")
+			if fd == nil || fd.Body == nil || len(fd.Body.List) != 1 {
+				return false
+			}
+			r, ok := fd.Body.List[0].(*ast.ReturnStmt)
+			return ok && len(r.Results) == 1 && tl.Src(r.Results[0]) == "!"+dp+".metaReady && "+dp+".meta.Width == 0"
+		}
+		e.P("def psUntilReady264 : Bool := %s", tl.LeanBool(unv(h264, "h264Depacketizer", "h264dp") && has(cW, "if len(h264dp.meta.Sps) == 0 || h264dp.unvalidated()") && has(cW, "if len(h264dp.meta.Pps) == 0 || h264dp.unvalidated()")))
+		e.P("def psUntilReady265 : Bool := %s", tl.LeanBool(unv(h265, "h265Depacketizer", "h265dp") && has(c5W, "if len(h265dp.meta.Vps) == 0 || h265dp.unvalidated()") && has(c5W, "if len(h265dp.meta.Sps) == 0 || h265dp.unvalidated()") && has(c5W, "if len(h265dp.meta.Pps) == 0 || h265dp.unvalidated()")))
+		for _, x := range []struct {
+			f          *ast.File
+			recv, name string
+		}{{h264, "h264Depacketizer", "h264Unvalidated"}, {h265, "h265Depacketizer", "h265Unvalidated"}} {
+			body := []string{}
+			if fd := tl.FuncDecl(x.f, x.recv, "unvalidated"); fd != nil && fd.Body != nil {
+				for _, st := range fd.Body.List {
+					body = append(body, oneLine(tl.Src(st)))
+				}
+			}
+			e.P("def %s : List String := %s", x.name, tl.LeanStrList(body))
+		}
 		_ = fdW
 
 		// constants
